@@ -335,6 +335,7 @@ def _(c):
     for toks in R.ill_formed(NAMES):
         text = R.render(toks, None, 1)
         c.scenario(text.strip() or "<empty>", _solve_pre(text))
+    c.requires("all([env[n] > 0 for n in env])")   # a negative numeral in place of a name would change the shape of the text
     c.raises("True", label="rejected-with-an-error")
 
 
@@ -415,6 +416,7 @@ def _(c):
             continue
         L, Rj = JUNK[i % len(JUNK)]
         c.scenario(f"{text.strip() or '<empty>'} after {'.'.join(L) or '-'}|{'.'.join(Rj) or '-'}", _dirty_pre(text, None, L, Rj))
+    c.requires("all([env[n] > 0 for n in env])")
     c.raises("True", label="same-error-as-a-fresh-instance")
 
 
